@@ -92,13 +92,20 @@ def derivative_contract(env, factory, const=None, exempt=(), history=True, equal
     insP = hA.inputs(tag="P.", const=const)
 
     def run_live():
-        hA.compute(insP)
+        # one live output storage and one live Jacobian storage, as in a live Problem: whatever the visit to X' left
+        # there is what the evaluation at X starts from
+        store = hA.out_store()
+        hA.compute(insP, outs=store)
         j = hA.partials(insP)
-        o = hA.compute(ins, havoc="O0")
+        o = hA.compute(ins, outs=store)
         j = hA.partials(ins, prev=j)
-        return o, j
+        first = {k: np.array(j.dense(k)) for k in declared if not declared[k]['method']}
+        # linearising again at the same point without re-running the model, then re-running the model at the same point
+        j = hA.partials(ins, prev=j)
+        o2 = hA.compute(ins, outs=store)
+        return o, j, first, o2
 
-    for path, (outsA, jacA) in env.explore(run_live):
+    for path, (outsA, jacA, jacA_first, outsA2) in env.explore(run_live):
         # compare with a fresh instance on the same path
         hC = env.comp("fresh2", factory, setup_model)
         if pre:
@@ -110,10 +117,13 @@ def derivative_contract(env, factory, const=None, exempt=(), history=True, equal
             tag = " @path(" + ";".join("%s=%s" % (_short(c), "T" if b else "F") for c, b in path) + ")"
         for n in hA.out_names:
             env.eq("C03", "H-out %s after visiting another point%s" % (n, tag), outsA[n], outsC[n])
+            env.eq("C03", "H-out %s when the model is run again at the same point%s" % (n, tag), outsA2[n], outsC[n])
         for k in declared:
             if declared[k]['method']:
                 continue
             env.eq("C03", "H-jac d%s/d%s after linearising at another point%s" % (k[0], k[1], tag),
+                   jacA_first[k], jacC.dense(k))
+            env.eq("C03", "H-jac d%s/d%s when linearised twice at the same point%s" % (k[0], k[1], tag),
                    jacA.dense(k), jacC.dense(k))
     return hB
 
